@@ -27,14 +27,14 @@ func (c03) ProcOpts() Proc { return Proc{RlimitAS: 4 << 30} }
 
 var c03choiceFeatures = []string{"int.w2", "int.w3", "int.w5", "long.w2", "long.w3", "long.w5", "long.w9", "dbl.w2", "dbl.w3", "dbl.w5", "dbl.w9",
 	"date.x4b", "chunk.split", "chunk.empty", "chunk.empty-lead", "chunk.empty-tail", "chunk.grow", "str.medium", "str.S", "bin.x34", "bin.B", "bin.x62", "bin.nonfinal",
-	"list.V", "list.x55", "list.x58", "list.x57", "type.index", "obj.O", "def.hoist", "def.float"}
+	"list.V", "list.x55", "list.x58", "list.x57", "type.index", "obj.O", "def.hoist", "def.float", "name.chunked"}
 
 func (c03) Cases(tier string, seed int64, kf *KnownFindings) []Case {
 	var cs []Case
 	add := func(c Case) { c.Sub = -1; cs = append(cs, c) }
 	add(Case{Kind: "examples", Count: 1})
 	add(Case{Kind: "longform", Count: 3})
-	per, vecs := 6, 10
+	per, vecs := 4, 8
 	if tier == "thorough" {
 		per, vecs = 120, 200
 	}
